@@ -60,7 +60,7 @@ CLAIMED = {
              "every exporter / loader pair (STL bin/ascii, PLY bin/ascii, OFF, OBJ, GLB, glTF, 3MF, DAE, dict, "
              "dict64, XYZ, DXF, SVG, path dict, with non-default options) on meshes, instanced / nested scenes, "
              "point clouds and paths: order, float32 bit-exactness, printed digits, colours, instance placement, "
-             "hash unchanged by export.",
+             "hash unchanged by export. Generated obligations from the literal tables of stl.py / ply.py / gltf.py (by ast): PLY type names survive export and reload for every entry, the STL record / header of the source are the model's 50 / 84 bytes, the GLB magic words are the model's constants; attached per-vertex / per-face data of every numeric type through binary and ascii PLY.",
         note="Trusted: Lean kernel (+propext/Classical.choice/Quot.sound); json, lxml / zip, collada, python float "
              "formatting are exercised not modelled; what a format carries is read off trimesh's exporter (no "
              "face colours in ascii PLY / OFF / GLB). Partial: text and XML formats are covered by the round "
@@ -113,7 +113,7 @@ CLAIMED = {
              "det (|det| after the flip), first moments map through L, second moments follow det L . L S L^T, "
              "squared areas scale by s^4, translation changes volume only by cancelling edge terms. Tied to the "
              "code by a differential run over 7 geometry kinds x 8 float64-exact matrix classes with normals "
-             "cached or not (points, counts, connectivity, attached data, inverse, composition, mass properties). Executable rational copies of transformPoint / det / signed volume / first moments (Model/GeomRat.lean) are proved equal to the generic definitions by rfl (C04_rat_model_is_generic) and the driver runs them on the harness's meshes and matrices: transformed vertices, volume and centre of mass of apply_transform are compared with the model, and det * volume is re-checked exactly.",
+             "cached or not (points, counts, connectivity, attached data, inverse, composition, mass properties). Executable rational copies of transformPoint / det / signed volume / first moments (Model/GeomRat.lean) are proved equal to the generic definitions by rfl (C04_rat_model_is_generic) and the driver runs them on the harness's meshes and matrices: transformed vertices, volume and centre of mass of apply_transform are compared with the model, and det * volume is re-checked exactly. C04_identity_shortcut_bound gives the error of the 1e-8 identity shortcut.",
         note="Trusted: Lean kernel (+propext/Classical.choice/Quot.sound), float64 evaluation on exact matrix "
              "families, C03's moments as the meaning of volume/centre/inertia. Partial: point clouds, paths, "
              "primitives, scenes and voxel grids are covered by the correspondence only ('points move to M.p, "
@@ -143,7 +143,7 @@ CLAIMED = {
              "index/inverse reconstruct the input with first-occurrence representatives (C06_unique, "
              "C06_unique_rows). The model is tied to the code by a differential run (bit-exact hashes, groups as "
              "sets, indices, blocks) on boundary-magnitude arrays; blocks/merge_runs/bincount/boolean_rows are "
-             "modelled and compared, not yet proved. Since registration: theorems for merge_runs, group_min, boolean_rows and for blocks without wrap-around (= specification; the runs tile the index range; a block is exactly a maximal run passing the filter); the two known wrap-around defects are stated as witnesses.",
+             "modelled and compared, not yet proved. Since registration: theorems for merge_runs, group_min, boolean_rows and for blocks without wrap-around (= specification; the runs tile the index range; a block is exactly a maximal run passing the filter); the two known wrap-around defects are stated as witnesses. Generated obligation C06_packing_constants_of_source (column limit, precision, threshold, offset, shift and both strict guard comparisons of hashable_rows recovered by ast); C06_blocks_wrap_unfiltered_partial.",
         note="Trusted: Lean kernel (+propext/Classical.choice/Quot.sound where reported), the Python harness; "
              "np.argsort/np.unique modelled as a stable sort; float quantisation only via correspondence. "
              "Known findings: two blocks(wrap=True) defects.",
@@ -178,7 +178,7 @@ CLAIMED = {
              "volume, triangles, dump / to_mesh, convex hull containment against explicit placement read straight "
              "from node data, interleaved graph / geometry edits, delete + re-add, copy, scaled, rezero, "
              "apply_transform, +, append_scenes of >=3 scenes sharing node names, subscene, convert_units, and "
-             "source-unchanged checks. Executable rational copies of placed / lower / upper / nodeLower / nodeUpper (Model/GeomRat.lean) are proved equal to the generic definitions by rfl (C10_rat_model_is_generic) and the driver folds them over the final scene of every case (world transforms and geometry points as exact rationals): Scene.bounds must equal the model's bounds.",
+             "source-unchanged checks. Executable rational copies of placed / lower / upper / nodeLower / nodeUpper (Model/GeomRat.lean) are proved equal to the generic definitions by rfl (C10_rat_model_is_generic) and the driver folds them over the final scene of every case (world transforms and geometry points as exact rationals): Scene.bounds must equal the model's bounds. Since registration: the node-renaming loop of append_scenes is modelled and proved never to merge nodes of different scenes (C10_append_no_merge) and to be one-to-one inside a scene; the real append_scenes (with predictable identifiers) is compared edge for edge with the model.",
         note="Trusted: Lean kernel (+propext/Classical.choice/Quot.sound), C09 for world transforms, float64 on the "
              "exact matrix family. Partial: the transformer methods are checked by correspondence only. Known "
              "findings: per-axis scaled() under rotated nodes; subscene drops the root node's own instance. One "
@@ -195,7 +195,7 @@ CLAIMED = {
              "C03, capped halves add up in volume. Tied to the code by a differential run: meshes with dyadic "
              "coordinates cut by integer planes through vertices / along edges / in general position, several "
              "planes, face subsets, every cap engine; endpoints on plane and surface, closed loops, areas and "
-             "volumes add up, convex halves watertight, multiplane = repeated single plane. The three handlers of mesh_plane and the quad / corner cut cases of slice_faces_plane (with their index rotation and quad split) are followed by an executable rational model (sectionTri, sliceTri): for every triangle, plane and tolerance the emitted endpoints are on the plane up to the sign tolerance and on the triangle's boundary, kept pieces are on the positive side, wound like the triangle, and the pieces of the two opposite slices tile the triangle (C11_rat_*); the driver evaluates the model on every face of every section / slice case and the result is compared face by face / triangle by triangle with the code. Since registration: C11_section_closed_loops (zero or two crossed edges per triangle; on a closed surface every crossed edge ends exactly two segments) with the crossed edges per face compared with the real mesh_plane output.",
+             "volumes add up, convex halves watertight, multiplane = repeated single plane. The three handlers of mesh_plane and the quad / corner cut cases of slice_faces_plane (with their index rotation and quad split) are followed by an executable rational model (sectionTri, sliceTri): for every triangle, plane and tolerance the emitted endpoints are on the plane up to the sign tolerance and on the triangle's boundary, kept pieces are on the positive side, wound like the triangle, and the pieces of the two opposite slices tile the triangle (C11_rat_*); the driver evaluates the model on every face of every section / slice case and the result is compared face by face / triangle by triangle with the code. Since registration: C11_section_closed_loops (zero or two crossed edges per triangle; on a closed surface every crossed edge ends exactly two segments) with the crossed edges per face compared with the real mesh_plane output. Generated obligation C11_case_table_of_source (constants and switched-on codes of mesh_plane.triangle_cases recovered by ast select exactly the model's patterns, all 27 sign triples).",
         note="Trusted: Lean kernel (+propext/Classical.choice/Quot.sound), float64 on dyadic inputs, shapely / "
              "earcut / triangle (polygon assembly and cap triangulation are judged by their outputs, not "
              "modelled), nearest.on_surface as surface membership test. Partial: loop assembly and capping are "
@@ -214,7 +214,7 @@ CLAIMED = {
              "inside, just past a face, converging on one point, duplicated) against both engines (r-tree and "
              "embree) for intersects_id / location / first / any, contains_points, nearest.on_surface, "
              "signed_distance; every query the model finds in general position must agree with it exactly "
-             "(triangle sets, first hit, locations, containment parity, distance, reported triangle). Since registration the broad phase is in the model too (ray_bounds, r-tree candidates, nearby_faces): C12_ray_bounds_complete, C12_hit_is_candidate, C12_pruning_lossless (pruned = exhaustive, for every mesh / origin / unit direction), C12_nearby_complete; the proof's need for unit directions exposed a defect of the r-tree engine for long direction vectors (repaired); ray_bounds boxes, candidates and nearby_faces are compared with the code.",
+             "(triangle sets, first hit, locations, containment parity, distance, reported triangle). Since registration the broad phase is in the model too (ray_bounds, r-tree candidates, nearby_faces): C12_ray_bounds_complete, C12_hit_is_candidate, C12_pruning_lossless (pruned = exhaustive, for every mesh / origin / unit direction), C12_nearby_complete; the proof's need for unit directions exposed a defect of the r-tree engine for long direction vectors (repaired); ray_bounds boxes, candidates and nearby_faces are compared with the code. Generated obligations from a symbolic trace of triangles.points_to_barycentric (both methods): the traced Cramer weights are the model's inclusion test and the two methods agree.",
         note="Trusted: Lean kernel (+propext/Classical.choice/Quot.sound); inside = odd crossing count along a "
              "general-position ray (Jordan); rtree / embree exercised not modelled; float -> rational "
              "conversion. Queries within 1e-3 (barycentric / relative) of an edge, vertex, the origin or the "
@@ -234,7 +234,7 @@ CLAIMED = {
              "families of polygons, circles and slots split into polylines and arcs in every order and "
              "direction: counts, nesting, area, length against exact values; similarity transforms after "
              "reading derived values; DXF / SVG / dict round trips; the library's discretised loops, entity "
-             "walk and arc centres are recomputed by the Lean model on exact rationals.",
+             "walk and arc centres are recomputed by the Lean model on exact rationals. Since registration: C14_enclosure (shells and holes: every odd-degree polygon is the hole of exactly one even-degree container of degree one less) with an executable model of enclosure_tree compared with path.root / enclosure_directed; generated obligation C14_arc_center_of_source from a symbolic trace of arc_center.",
         note="Trusted: Lean kernel (+propext/Classical.choice/Quot.sound); networkx cycle search, shapely "
              "containment and the DXF / SVG text layers are exercised not modelled (partial). Two defects "
              "repaired (Arc.length doubled; dict form could not be re-imported, see C08).",
@@ -334,7 +334,7 @@ CLAIMED = {
              "run (encoded arrays compared element by element, long runs at the dtype limits, list/array, "
              "sorted/unsorted/repeated indices). The lazy Encoding classes/views, the voxel grid index<->point "
              "maps, volume and binvox export/reload are checked against the dense specification by the "
-             "correspondence only (partial). Since registration: the index maps of the lazy views (ravel / unravel for any shape, flip, reshape, transpose) are modelled and proved (C13_ravel_unravel, C13_flip_view, C13_reshape_view, C13_transpose_view_partial + 3-cycle witness) and compared with _to_base_indices / _from_base_indices of the real view classes.",
+             "correspondence only (partial). Since registration: the index maps of the lazy views (ravel / unravel for any shape, flip, reshape, transpose) are modelled and proved (C13_ravel_unravel, C13_flip_view, C13_reshape_view, C13_transpose_view_partial + 3-cycle witness) and compared with _to_base_indices / _from_base_indices of the real view classes. Grid addressing (points_to_indices / indices_to_points, np.round ties to even): C13_grid, C13_grid_ties, compared exactly on dyadic grids.",
         note="Trusted: Lean kernel (+propext/Classical.choice/Quot.sound), the Python harness, numpy as the dense "
              "specification. Not proved: the Encoding view classes (the known findings list their broken reads by "
              "(encoding, read, failure kind, view)), VoxelGrid transforms.",
